@@ -125,14 +125,20 @@ theorem SInv.add {cfg : Cfg} (G : Good cfg) {s : State n} (h : SInv cfg s) (tx :
         · simp only [hsp, if_true]
           exact ⟨h.rollback G, fun _ => rfl, fun e => by cases e⟩
         simp only [hsp, Bool.false_eq_true, if_false]
+        by_cases hp0' : putFailsIn opt.putFails (if opt.payload.isSome then 1 else 0)
+            ((if opt.payload.isSome then 1 else 0) + (if opt.payload.isSome then 1 else 0)) = true
+        · simp only [hp0', if_true]
+          exact ⟨h.rollback G, fun _ => rfl, fun e => by cases e⟩
+        simp only [hp0', Bool.false_eq_true, if_false]
         rcases graphAdd_spec h.g hp' hv with hr | ⟨d, hd, hg, htx, hx, hi, hlc, hle, hempty⟩
         · rw [hr]
           exact ⟨h.rollback G, fun _ => rfl, fun e => by cases e⟩
         · rw [hd]
           simp only []
-          generalize hng : (if opt.payload.isSome then 1 else 0) + 4 +
+          generalize hng : (if opt.payload.isSome then 1 else 0) + (if opt.payload.isSome then 1 else 0) + 4 +
             (if (decide (tx.clock > s.disk.lcHigh) || tx.clock == 0) = true then 1 else 0) = ng
-          by_cases hp1 : putFailsIn opt.putFails (if opt.payload.isSome then 1 else 0) ng = true
+          by_cases hp1 : putFailsIn opt.putFails
+              ((if opt.payload.isSome then 1 else 0) + (if opt.payload.isSome then 1 else 0)) ng = true
           · simp only [hp1, if_true]
             exact ⟨h.rollback G, fun _ => rfl, fun e => by cases e⟩
           simp only [hp1, Bool.false_eq_true, if_false]
